@@ -64,7 +64,7 @@ fn corpus_case(rng: &mut Rng, small: bool, sel: usize) -> ConnCase {
 
 fn ctl(base: ConnCase) -> CtlCase {
     let end = base_mode(&base);
-    CtlCase { write_err: None, base, cut: None, end, handlers: Handlers::Sequential, fresh: false }
+    CtlCase { write_err: None, base, cut: None, end, handlers: Handlers::Sequential, fresh: false, vanish_first: 0 }
 }
 
 fn obs_key(o: &Outcome) -> (Vec<String>, Vec<u8>, bool, Vec<String>) {
@@ -121,8 +121,31 @@ pub fn seg_family(id0: usize, rng: &mut Rng, out: &mut Vec<String>) {
 
 /// C15 (request side): every prefix of a conversation followed by half-close, close or reset.
 pub fn cut_family(id0: usize, rng: &mut Rng, out: &mut Vec<String>) {
-    let base = corpus_case(rng, true, id0 / 1000);
+    let sel = id0 / 1000;
+    let base = if sel % 3 == 2 {
+        // a body larger than the buffering threshold (streamed), cut inside it too
+        let mut r = g::AReq::get("/big");
+        r.method = "POST".into();
+        let blen = *rng.pick(&[1100usize, 1500, 3000]);
+        let f = if rng.chance(1, 3) { g::Framing::Chunked } else { g::Framing::Len };
+        g::set_body(rng, &mut r, f, blen);
+        let a = g::rich_action(0, rng, blen, true);
+        let reqs = vec![g::AReq::get("/first"), r, g::AReq::get("/last")];
+        let script = vec![g::simple_action(0, rng), a, g::simple_action(2, rng)];
+        let mut c = g::assemble_pub(rng, &reqs, script);
+        no_panic_script(&mut c);
+        c
+    } else {
+        corpus_case(rng, true, sel)
+    };
     let cfg0 = default_cfg(rng);
+    // element boundaries (for the "nothing incomplete is delivered" predicate)
+    let ends: Vec<(usize, usize, bool)> = base
+        .intent
+        .split(' ')
+        .find_map(|t| t.strip_prefix("i_ends="))
+        .map(|v| v.split(',').filter_map(|e| { let f: Vec<&str> = e.split(':').collect(); if f.len() == 3 { Some((f[0].parse().ok()?, f[1].parse().ok()?, f[2] == "1")) } else { None } }).collect())
+        .unwrap_or_default();
     let full = {
         let c0 = ctl(base.clone());
         execute(&c0, &cfg0)
@@ -144,9 +167,12 @@ pub fn cut_family(id0: usize, rng: &mut Rng, out: &mut Vec<String>) {
         let o = execute(&c, &default_cfg(rng));
         let u = urls(&o);
         let prefix = u.len() <= full_urls.len() && u[..] == full_urls[..u.len()];
+        // how many elements can possibly have been delivered: head complete, and a buffered body complete
+        let allowed = ends.iter().filter(|(end, head_end, small)| *head_end <= k && (!*small || *end <= k)).count();
+        let complete_ok = ends.is_empty() || u.len() <= allowed;
         // the generator's intent describes the whole stream, not the prefix: drop it
         c.base.intent = String::new();
-        out.push(line_of(id0, &c, &o, &format!("i_fam=cut cutk={} prefix={} panicked={}", k, if prefix { 1 } else { 0 }, if o.panicked { 1 } else { 0 })));
+        out.push(line_of(id0, &c, &o, &format!("i_fam=cut cutk={} prefix={} complete={} panicked={}", k, if prefix { 1 } else { 0 }, if complete_ok { 1 } else { 0 }, if o.panicked { 1 } else { 0 })));
     }
 }
 
@@ -285,7 +311,27 @@ pub fn ahead_family(id0: usize, rng: &mut Rng, out: &mut Vec<String>) {
     let intent = g::intent_of_pub(&reqs);
     let base = ConnCase { bytes, mode: Mode::HalfClose, hold: None, segs: vec![], script, unix: false, intent };
     let mut c = ctl(base);
-    c.handlers = Handlers::Collect(n, (0..n).collect());
+    // one thread collecting all n, or (small bodies only) n receiver threads taking one each
+    let park = !streamed_first && rng.chance(1, 3);
+    c.handlers = if park { Handlers::Park(n) } else { Handlers::Collect(n, (0..n).collect()) };
     let o = execute(&c, &default_cfg(rng));
-    out.push(line_of(id0, &c, &o, &format!("i_fam=ahead i_expect_received={} streamed_first={}", n, if streamed_first { 1 } else { 0 })));
+    // with parked receivers the delivery order is the receivers' business: compare the wire and the count only
+    if park {
+        c.base.intent = String::new();
+    }
+    out.push(line_of(id0, &c, &o, &format!("i_fam=ahead i_expect_received={} streamed_first={} park={}", n, if streamed_first { 1 } else { 0 }, if park { 1 } else { 0 })));
+}
+
+/// C15: clients that connect and reset before the server accepts them; the server must keep
+/// accepting and serve the next client.
+pub fn vanish_family(id0: usize, rng: &mut Rng, out: &mut Vec<String>) {
+    let base = g::gen_mixed(rng);
+    let mut base = base;
+    base.mode = Mode::HalfClose;
+    no_panic_script(&mut base);
+    let mut c = ctl(base);
+    c.vanish_first = rng.range(1, 3);
+    c.fresh = true;
+    let o = execute(&c, &default_cfg(rng));
+    out.push(line_of(id0, &c, &o, &format!("i_fam=vanish vanish={} panicked={}", c.vanish_first, if o.panicked { 1 } else { 0 })));
 }
